@@ -168,7 +168,7 @@ def main(tier):
     rep = common.Report(PROP, tier)
     n, tv = lifecycle.states_table_violations()
     jobs = common.rotate(scenarios(tier))
-    deadline = time.time() + (170 if tier == 'quick' else 3000)
+    deadline = time.time() + (170 if tier == 'quick' else 1500)
     res = common.parallel_map(common.explore_job, jobs, deadline=deadline)
     rep.add_explore_results(jobs, res)
     rep.extra = {'state_pairs_checked_against_statement_table': n}
